@@ -1713,7 +1713,9 @@ class DOSINIExperimentConfiguration(FlowIRExperimentConfiguration):
         if user_variables:
             ret[experiment.model.frontends.flowir.FlowIR.LabelStages] = {}
 
-        for stage_name in user_variables:
+        # VV: sorted so that when two sections name the same stage ([STAGE0] and [stage0]) the same one wins, whatever
+        #     the order in which the file lists them
+        for stage_name in sorted(user_variables):
             if stage_name.lower().startswith('stage'):
                 index = int(stage_name[5:])
             else:
